@@ -227,6 +227,22 @@ def run(ctx):
             reach = h.reach([d_ for _, d_ in T], avoid_blocks=[outer] if outer is not None else [])
             bad = [b_ for b_ in gets + sends if b_ in reach]
             r3.check(not bad and outer is not None, "handled=>no-checkout", "handle_custom_protocol()==true returns to the idle loop without checkout or send", "a handled command can still reach a checkout/send (bb%s)" % bad)
+        # the commands are evaluated against the configuration in force: SET SHARD's range, the sharder of SET SHARDING KEY, the default role come from the
+        # router's copy of the pool settings - refreshed from the pool looked up for this message before the handler runs (round 10: a first command after a
+        # reload that changed the number of shards was answered for the old pool and selected a shard of the old numbering)
+        hcp_calls = h.calls("pgcat::client::Client::handle_custom_protocol")
+        ups = h.calls("pgcat::query_router::QueryRouter::update_pool_settings")
+        rmb = [c.block for c in h.calls("pgcat::messages::read_message")]
+        gp = h.calls("pgcat::client::Client::get_pool")
+        if not hcp_calls or not rmb:
+            r3.missing("handle_custom_protocol call / read_message in handle")
+        else:
+            for k_, hc_ in enumerate(hcp_calls):
+                fresh = [u_ for u_ in ups if h.dominates(u_.block, hc_.block) and any(h.dominates(r_, u_.block) for r_ in rmb)
+                         and any(o.kind == "call" and o.call.name.startswith("pgcat::client::Client::get_pool") and any(h.dominates(r_, o.call.block) for r_ in rmb) for o in origins(h, u_.args[1], taint=True))]
+                r3.check(bool(fresh), "settings-refreshed-before-the-command#%d" % k_, "the router takes the settings of the pool looked up for this message before the command handler runs",
+                         "handle_custom_protocol runs on the router's settings as they were for the previous message: after a reload that changes shards / sharding function / default role, the first command is "
+                         "evaluated for the old pool - SET SHARDING KEY selects a shard of the old numbering, SHOW reports it, and the next statement is checked out on that shard of the new pool", hc_.where())
         if tec:
             # None (not a command) paths of try_execute_command must not mutate router state after the regex decision... reported only
             pass
